@@ -252,6 +252,8 @@ EXECUTED_STATUSES = frozenset(["passed", "failed", "error", "pending", "pending_
 
 
 def base_outcome(oc):
+    if oc.startswith("asynct_"):        # async step function run with a timeout (asyncio.wait branch)
+        return oc[7:]
     return oc[6:] if oc.startswith("async_") else oc
 
 
@@ -581,7 +583,8 @@ def act(context, sid, outcome):
 def make_registry2(rec):
     """runlib's registry plus (in front of the generic definition)
     ``step {sid} {outcome:Conv}``  -- the converter of Conv raises: type-conversion error;
-    ``step {sid} async_{outcome}`` -- the same behaviours as an async step function."""
+    ``step {sid} async_{outcome}`` -- the same behaviours as an async step function;
+    ``step {sid} asynct_{outcome}`` -- the same, decorated with a timeout (the asyncio.wait branch)."""
     reg = rl.make_registry(rec)
 
     def never(context, sid, outcome):                   # pragma: no cover (must not be called)
@@ -601,7 +604,18 @@ def make_registry2(rec):
         await asyncio.sleep(0)
         act(context, sid, outcome)
     amatch = ParseMatcher(agen, "step {sid} async_{outcome}")
-    reg.steps["step"][0:0] = [conv, amatch]
+
+    @async_run_until_complete(timeout=30)
+    async def agen_t(context, sid, outcome):
+        await asyncio.sleep(0)
+        sc = getattr(context, "scenario", None)
+        rec.calls.append((sc.name if sc is not None else None, sid, "asynct_" + outcome))
+        if rec.on_step is not None:
+            rec.on_step(context, sid, "asynct_" + outcome)
+        await asyncio.sleep(0)
+        act(context, sid, outcome)
+    atmatch = ParseMatcher(agen_t, "step {sid} asynct_{outcome}")
+    reg.steps["step"][0:0] = [conv, amatch, atmatch]
     return reg
 
 
